@@ -99,7 +99,10 @@ class Explorer(object):
 
         pts = {0.0, ONE_MINUS}
         for h in self.hints:
-            a, b = h - HINT_D, h + HINT_D
+            # brackets and stopping rule are *relative*: acceptance
+            # probabilities far below 1 (weight / max weight) are renormalised
+            # by the rejection loop, which amplifies absolute errors
+            a, b = h * (1.0 - HINT_D), h * (1.0 + HINT_D)
             if a > 0.0:
                 pts.add(a)
             if b < ONE_MINUS:
@@ -111,7 +114,7 @@ class Explorer(object):
             fa, fb = f(a), f(b)
             if fa == fb:
                 return
-            if b - a <= TOL:
+            if b - a <= TOL * b or b < 1e-300:
                 bps.append((0.5 * (a + b), fa, fb))
                 return
             m = 0.5 * (a + b)
@@ -127,14 +130,14 @@ class Explorer(object):
         for a, b in zip(pts[:-1], pts[1:]):
             before = len(bps)
             refine(a, b)
-            if b - a <= TOL and len(bps) > before:
+            if b - a <= TOL * b and len(bps) > before:
                 self.hint_hits += 1
         bps.sort()
         self.breakpoints += len(bps)
         edges = [0.0] + [x for x, _, _ in bps] + [1.0]
         out = []
         for lo, hi in zip(edges[:-1], edges[1:]):
-            if hi - lo <= 4 * TOL:
+            if hi - lo <= 4 * TOL * hi:
                 continue
             out.append((lo, hi, 0.5 * (lo + hi), None))
         return out
